@@ -490,6 +490,9 @@ func (ec *evalCtx) index(x *CIdx) (TV, error) {
 	case *types.Slice:
 		i = ec.concretise(i, types.Typ[types.Int])
 		ix := c.toIdx(i.T, i.Ty)
+		if ec.binders == 0 {
+			c.noteIndexTerm(ix)
+		}
 		es := c.sortOf(t.Elem())
 		arr := sel(c.get(ec.st, c.regElem(es)), slPtr(v.T), arraySort(c.sc.idxSort(), es))
 		return TV{T: sel(arr, c.add(c.slOff(v.T), ix), es), Ty: t.Elem()}, nil
@@ -714,8 +717,13 @@ func (ec *evalCtx) quant(x *CQuant) (TV, error) {
 		decl = append(decl, fmt.Sprintf("(%s %s)", name, s))
 		t := Term{name, s}
 		sub.bind[v.Name] = TV{T: t, Ty: ty}
-		if wf := c.wfTerm(t, ty); wf.S != "true" {
-			guards = append(guards, wf)
+		// quantified variables of struct type range over all values of the SMT sort (no
+		// well-formedness guard): lemmas are proved for all of them, so using them needs no
+		// side condition on elements read from the heap
+		if _, isStruct := ty.Underlying().(*types.Struct); !isStruct {
+			if wf := c.wfTerm(t, ty); wf.S != "true" {
+				guards = append(guards, wf)
+			}
 		}
 	}
 	body, err := sub.evalBool(x.Body)
@@ -938,6 +946,21 @@ func (ec *evalCtx) call(x *CCall) (TV, error) {
 				return TV{}, fmt.Errorf("typeOf needs an interface value")
 			}
 			return TV{T: ifTag(v.T), Tag: true, Ty: types.Typ[types.Int]}, nil
+		case "same":
+			// identical values (SMT equality; Go's == on structs/arrays compares fieldwise)
+			if len(x.Args) != 2 {
+				return TV{}, fmt.Errorf("same() takes two arguments")
+			}
+			a, err := ec.eval(x.Args[0])
+			if err != nil {
+				return TV{}, err
+			}
+			b, err := ec.eval(x.Args[1])
+			if err != nil {
+				return TV{}, err
+			}
+			a, b = ec.unify(a, b)
+			return TV{T: eq(a.T, b.T), Ty: types.Typ[types.Bool]}, nil
 		case "isFresh":
 			// the object was allocated by this function (not reachable from the entry state)
 			v, err := ec.eval(x.Args[0])
@@ -1107,7 +1130,14 @@ func (ec *evalCtx) pureCall(fn *types.Func, recv *TV, args []CExpr) (TV, error) 
 	if res.Len() == 0 {
 		return TV{}, fmt.Errorf("%s has no result", fn.Name())
 	}
-	if d := c.v.definedPure(c, key, con, fn, tys); d != "" {
+	if d := ""; !con.Opaque || c.inLemma {
+		d = c.v.definedPure(c, key, con, fn, tys)
+		if d != "" {
+			rs := c.sortOf(res.At(0).Type())
+			return TV{T: mk(rs, d, terms...), Ty: res.At(0).Type()}, nil
+		}
+	}
+	if d := ""; d != "" {
 		rs := c.sortOf(res.At(0).Type())
 		return TV{T: mk(rs, d, terms...), Ty: res.At(0).Type()}, nil
 	}
@@ -1116,7 +1146,7 @@ func (ec *evalCtx) pureCall(fn *types.Func, recv *TV, args []CExpr) (TV, error) 
 		t := c.pureTerm(key, i, terms, tys, res.At(i).Type(), con.PureHeap, ec.st)
 		tvs = append(tvs, TV{T: t, Ty: res.At(i).Type()})
 	}
-	if ec.binders == 0 && len(con.Ensures) > 0 && c.pureDepth < 3 {
+	if ec.binders == 0 && len(con.Ensures) > 0 && c.pureDepth < 3 && (!con.Opaque || c.inLemma) {
 		names := paramNames(nil, sig, false)
 		if recv != nil && sig.Recv() == nil {
 			names = append([]string{"recv"}, names...)
